@@ -138,7 +138,7 @@ def judge_coherence(records):
         for r in records:
             fh.write(json.dumps(r) + "\n")
     cfg = tlc.render_cfg({}, spec="JSpec", invariants=["Judge"], postcondition="Done")
-    r = tlc.run("CoherentJudge", cfg, workers=4, env_extra={"JUDGE_FILE": p}, timeout=3000)
+    r = tlc.run("CoherentJudge", cfg, workers=4, env_extra={"JUDGE_FILE": p}, timeout=3000, heap="2g")
     if r.errors or r.violation:
         raise MachineryFailure("CoherentJudge: %s" % (r.errors or [r.violation])[0][:1500])
     if sum(x.get("judged", 0) for x in r.records) != len(records):
